@@ -429,13 +429,15 @@ def verify_unit(unit, repo, workdir, keep=False):
     # Verus is deterministic on identical input: results are cached by the hash of the assembled text (which contains the
     # code just extracted from the repo), so units shared by several properties are verified once per source state.
     import hashlib
-    key = hashlib.sha256(("v3|" + asm.text() + "|" + asm_c.text() + "|" + repr(unit.get("rlimit")) + repr(unit.get("rlimit_retry")) + repr(unit.get("verus_args"))).encode()).hexdigest()
+    key = hashlib.sha256(("v4|" + asm.text() + "|" + asm_c.text() + "|" + repr(unit.get("rlimit")) + repr(unit.get("rlimit_retry")) + repr(unit.get("verus_args"))).encode()).hexdigest()
     cdir = os.environ.get("VERIF_UNIT_CACHE", os.path.join(os.path.dirname(os.path.dirname(os.path.abspath(__file__))), ".cache", "units"))
     cpath = os.path.join(cdir, "%s-%s.json" % (unit["name"], key[:32]))
     if os.environ.get("VERIF_NO_CACHE") != "1" and os.path.exists(cpath):
         try:
             with open(cpath) as f:
                 cached = json.load(f)
+            if cached.get("failures") or cached.get("undecided"):
+                raise ValueError("only clean verdicts are reused")
             cached["cache_hit"] = True
             cached["verify_wall_s"] = cached.get("verify_wall_s", cached.get("wall_s"))
             cached["wall_s"] = time.time() - t0
@@ -505,7 +507,9 @@ def verify_unit(unit, repo, workdir, keep=False):
     out["wall_s"] = time.time() - t0
     out["cache_hit"] = False
     out["verify_wall_s"] = out["wall_s"]
-    if not any(u.startswith("verus timed out") for u in out["undecided"]):
+    # only clean verdicts are cached: a failed or undecided run is always re-verified from scratch, so a verdict that was
+    # produced while the unit was being edited (or under resource pressure) can never be replayed later
+    if not out["undecided"] and not out["failures"]:
         try:
             os.makedirs(cdir, exist_ok=True)
             with open(cpath + ".tmp", "w") as f:
